@@ -156,7 +156,7 @@ namespace
 {
     // Applying the tree to the config host and destroying it recurse once per nesting level of
     // braces: beyond this depth the input is refused instead of exhausting the stack.
-    const size_t max_nesting_depth = 10000;
+    const size_t max_nesting_depth = 2000;
     bool nesting_too_deep(std::string& contents, const std::string& path, size_t& out_line, size_t& out_column)
     {
         using tokenizer = ::sqf::parser::config::tokenizer;
